@@ -67,7 +67,7 @@ def gen_witness(spec):
     return '\n'.join(out) + '\n', rows
 
 
-def run_witness(v):
+def run_witness(v, prop='C17', only=None):
     with open(os.path.join(VERIF, 'spec', 'properties.json')) as f:
         spec = json.load(f)
     src, rows = gen_witness(spec)
@@ -91,9 +91,11 @@ def run_witness(v):
     if r.returncode != 0 and not failed:
         raise AnalysisBroken('witness unit failed without naming a row: %s' % outp[-400:])
     for row in rows:
+        if only is not None and not only(row):
+            continue
         v.check(row not in failed, 'R-TABLE', 'witness:' + row,
                 'static_assert holds' if row not in failed else 'static_assert FAILS to compile: the library\'s table differs from MQTT 5 Table 2-4',
-                key='C17:R-TABLE:' + row, where='property_types.hpp / types.hpp')
+                key=prop + ':R-TABLE:' + row, where='property_types.hpp / types.hpp')
     return len(rows)
 
 
